@@ -7,6 +7,7 @@ def run(ctx, rep):
     rep.rule = ("token level: every token sequence <= %d the reference grammar explores, two layouts, 5 parser "
                 "configurations, each load under a 2 s watchdog; hang or an exception other than LexerError/ParseError is "
                 "a C06 violation; character level: every string <= 4 (5 thorough) over an 18-character alphabet and <= 3/4 over two further alphabets (control, non-ASCII and numeric characters) explored by TLC on spec/MC_Loader.tla, 5 configurations. distinct = (config, token sequence, layout); non-trivial = >= 3 tokens" % maxlen)
+    parser_loop_model(ctx, rep)
     fails = tokenlevel.run_tokens(ctx, rep, maxlen, ["C06"])
     other = {}
     for prop, sig, case, detail in fails:
@@ -71,3 +72,45 @@ def values(ctx, rep, other):
         else:
             rep.fail({"config": config, "locus": "value-shaped-input", "features": loaders.text_features(text), "observed": out},
                      {"config": config, "text": text}, {})
+
+
+def _bind(job):
+    from .. import loaders
+    inp = job
+    text = " ".join({"W": "a", "V": "1", "=": "=", "E": "END", "X": "&"}[k] for k in inp)
+    obs = loaders.load("OMNI", text)
+    if obs["kind"] == "module":
+        items = []
+        for it in obs["tree"]["xs"]:
+            v = it["xs"][0]
+            items.append("empty" if v["t"] == "empty" else ("W" if v["t"] == "str" else "V"))
+        return ("", items)
+    if obs["kind"] == "raise":
+        return (obs["type"], [])
+    return ("hang", [])
+
+
+def parser_loop_model(ctx, rep):
+    """Design level: the implementation-shaped model of the parser's top-level loop (spec/ParserLoop.tla).  TLC proves
+    termination and documented exceptions for every token input <= 5 on the repaired control flow and exhibits the
+    non-progress cycle / StopIteration escape of the code before the repairs.  The model is then bound to the code: its
+    outcome for every input is compared with the real OmniParser (reported as binding, never as a violation)."""
+    from .. import tlc
+    from ..common import pool_map
+    r = tlc.run("ParserLoop", "ParserLoop_fixed.cfg", workers=4, scratch=ctx.scratch, timeout=900)
+    rep.tlc("ParserLoop Version=fixed: Termination (liveness), OnlyDocumented, NothingSkipped for all inputs <= 5", r)
+    if r.violation:
+        raise RuntimeError("ParserLoop (fixed) violates a property: " + r.violation)
+    r = tlc.run("ParserLoop", "ParserLoop_prefix.cfg", workers=4, scratch=ctx.scratch, timeout=900)
+    rep.tlc("ParserLoop Version=prefix: TLC exhibits the pre-repair counterexamples", r)
+    rep.coverage_extra["parser_loop_model_prefix_counterexample"] = r.violation or "none (unexpected)"
+    r = tlc.run("ParserLoop", "ParserLoop_emit.cfg", workers=1, scratch=ctx.scratch, timeout=900)
+    rep.tlc("ParserLoop Version=fixed: outcomes emitted for binding", r)
+    outs = {tuple(c["inp"]): (c["exc"], [x["v"] for x in c["items"]] if c["exc"] == "" else []) for c in r.printed}
+    inputs = sorted(outs)
+    got = pool_map(_bind, inputs, chunksize=200)
+    agree = sum(1 for k, g in zip(inputs, got) if outs[k] == g)
+    drift = [{"tokens": list(k), "model": outs[k], "code": g} for k, g in zip(inputs, got) if outs[k] != g][:5]
+    rep.coverage_extra["binding_parser_loop_model_vs_OmniParser"] = {"inputs": len(inputs), "agree": agree, "differences_sample": drift}
+    if agree != len(inputs):
+        print("NOTE: MODEL-DRIFT (diagnostic only): ParserLoop model and OmniParser differ on %d of %d token inputs" % (len(inputs) - agree, len(inputs)))
